@@ -22,8 +22,8 @@ pub struct Phase {
     pub step_idx: usize,
     /// status document in force for requests of this phase (what the host has been serving, applied)
     pub doc: Value,
-    /// previous document when the phase overlaps a transition
-    pub prev_doc: Option<Value>,
+    /// every document served since the agent last provably applied one (non-empty = transition phase)
+    pub prev_docs: Vec<Value>,
     pub t_start_ns: u64,
     pub t_end_ns: u64,
     pub latched_guid: Option<String>,
@@ -268,7 +268,7 @@ pub async fn execute(seed: u64, plan: Value) -> Run {
     write_config(&plan["config"]);
 
     let mut cur_doc: Value = st.lock().unwrap().status_doc.clone();
-    let mut prev_doc: Option<Value> = None;
+    let mut prev_docs: Vec<Value> = Vec::new();
     let autostart = plan["autostart"].as_bool().unwrap_or(true);
     if autostart {
         let shared = SharedState::start_all();
@@ -280,7 +280,7 @@ pub async fn execute(seed: u64, plan: Value) -> Run {
         match s["t"].as_str().unwrap_or("") {
             "doc" => {
                 let mut g = st.lock().unwrap();
-                prev_doc = Some(cur_doc.clone());
+                prev_docs.push(cur_doc.clone());
                 cur_doc = s["doc"].clone();
                 g.set_doc(cur_doc.clone());
                 match s["latch"].as_str().unwrap_or("keep") {
@@ -296,7 +296,7 @@ pub async fn execute(seed: u64, plan: Value) -> Run {
             "wait_polls" => {
                 let ok = wait_polls(&run, s["n"].as_u64().unwrap_or(2), s["max_s"].as_u64().unwrap_or(120)).await;
                 if ok {
-                    prev_doc = None; // the agent has applied the document: stable phase
+                    prev_docs.clear(); // the agent has applied the document: stable phase
                 } else {
                     run.notes.push(format!("step {}: wait_polls timed out", si));
                 }
@@ -337,7 +337,7 @@ pub async fn execute(seed: u64, plan: Value) -> Run {
                         }
                     }
                 }
-                run.phases.push(Phase { step_idx: si, doc: cur_doc.clone(), prev_doc: prev_doc.clone(), t_start_ns: t0, t_end_ns: vrt::time::now_ns(), latched_guid });
+                run.phases.push(Phase { step_idx: si, doc: cur_doc.clone(), prev_docs: prev_docs.clone(), t_start_ns: t0, t_end_ns: vrt::time::now_ns(), latched_guid });
             }
             "sleep" => tokio::time::sleep(Duration::from_millis(s["ms"].as_u64().unwrap_or(1000))).await,
             "clock_jump" => vrt::time::jump_wall(s["ms"].as_i64().unwrap_or(0) * 1_000_000),
